@@ -33,7 +33,7 @@ type Outcome struct {
 // Stats counts what the checker evaluated.
 type Stats struct {
 	Txns, Committed, RolledBack, ReadsReplayed, ScansReplayed, LockingReads, PairsChecked, Inserts, ExtPairs int
-	ReadersSawOthers                                                                                        int // reads that returned a value written by another transaction
+	ReadersSawOthers                                                                                         int // reads that returned a value written by another transaction
 }
 
 // Checker holds the inputs.
@@ -214,7 +214,7 @@ func (c *Checker) Check() []Violation {
 			}
 			witness := func(k string) map[string]any {
 				return map[string]any{"txn": rec.ID, "start_ts": rec.StartTS, "spec": rec.Spec.String(), "read": fmt.Sprintf("%s keys=%v [%q,%q)", rd.Kind, rd.Keys, rd.Lo, rd.Hi),
-					"for_update_ts": rd.ForUpdateTS, "returned": rd.Vals, "order": rd.Order, "key": k, "key_truth": c.Truth.Keys[k], "call_seq": rd.CallSeq}
+					"for_update_ts": rd.ForUpdateTS, "returned": rd.Vals, "order": rd.Order, "key": k, "key_truth": c.Truth.Keys[k], "call_seq": rd.CallSeq, "ret_seq": rd.RetSeq, "client": rec.Client, "diag": rd.Diag, "err": rd.Err, "failed_steps": rec.Failed, "end": rec.EndKind, "commit": rec.CommitClass}
 			}
 			switch rd.Kind {
 			case work.OpGet, work.OpBatchGet:
